@@ -52,6 +52,10 @@ var seedDefs = []seedDef{
 var comps = []wh.Comp{"none", "gzip-1", "brotli-1"}
 
 type seed struct {
+	// unavailable: why this seed could not be produced on the current tree (the optimizer
+	// chose not to write a bsdiff series, or failed on the valid input — the latter is C07's
+	// business). Its cases are skipped with a note; never an alarm of this check.
+	unavailable    string
 	def            seedDef
 	oldDir, newDir string
 	patch          map[wh.Comp][]byte // real writer output
@@ -101,7 +105,11 @@ func (ss *seedSet) get(name string) *seed {
 		p := dr.Patch
 		if def.Optimize {
 			p, _, err = wh.Rediff(dr.Patch, s.oldDir, s.newDir, wh.RediffParams{Comp: c})
-			must(err)
+			if err != nil {
+				s.unavailable = "the optimizer failed on the seed's valid patch: " + err.Error()
+				ss.seeds[name] = s
+				return s
+			}
 		}
 		s.patch[c] = p
 		s.sig[c] = dr.Sig
@@ -155,7 +163,7 @@ func (ss *seedSet) get(name string) *seed {
 			}
 		}
 		if nb == 0 {
-			panic("seed " + name + ": optimizer produced no bsdiff series")
+			s.unavailable = "the optimizer wrote no bsdiff series for this seed"
 		}
 	}
 	ss.seeds[name] = s
